@@ -120,13 +120,26 @@ def gen_c02(rnd, n, thorough=False):
         R0 = S0 * N0
         lines = [_create('f', layout, m, xff)]
         tags = {'layout': lname, 'levels': k, 'method': m, 'xff': '%08x' % xff, 'ops': {}}
+        sent = []
         for _ in range(rnd.randint(1, 24 if thorough else 10)):
             now = advance(rnd, now, layout)
             r = rnd.random()
             if r < 0.3:
                 age = min(rnd.pick([0, 1, S0, rnd.randint(0, R0 - 1)]), R0 - 1)
-                lines.append("upd f %d %d %016x %d" % (rnd.pick([-1, 0]), now - age, value(rnd, nan_ok), now))
+                v = value(rnd, nan_ok)
+                lines.append("upd f %d %d %016x %d" % (rnd.pick([-1, 0]), now - age, v, now))
+                sent.append((now - age, v))
                 tags['ops']['upd'] = tags['ops'].get('upd', 0) + 1
+            elif r < 0.42 and sent:
+                # the same point sent again (same time, same bits) after the coarser slots it feeds were
+                # written directly, or after neighbours of its interval changed: the write recomputes them
+                t, v = rnd.pick(sent[-6:])
+                if now - R0 < t <= now:
+                    if rnd.chance(0.6):
+                        a = rnd.randrange(1, k)
+                        lines.append("upd f %d %d %016x %d" % (a, t - t % layout[a][0], value(rnd, nan_ok), now))
+                    lines.append("upd f %d %d %016x %d" % (rnd.pick([-1, 0]), t, v, now))
+                    tags['ops']['resend'] = tags['ops'].get('resend', 0) + 1
             else:
                 shape = rnd.pick(['dense', 'sparse', 'dups', 'lap', 'exact_k', 'exact_k'])
                 pts = []
@@ -154,6 +167,7 @@ def gen_c02(rnd, n, thorough=False):
                         pts.append((now - rnd.randint(0, R0 - 1), value(rnd, nan_ok)))
                 rnd.shuffle(pts)
                 lines.append(_many('f', rnd.pick([-1, 0]), now, pts))
+                sent += pts[-2:]
                 tags['ops'][shape] = tags['ops'].get(shape, 0) + 1
             _observe(rnd, lines, layout, list(range(k)), now, nwin=2)
         cases.append({'id': 'c02-%d' % c, 'lines': lines, 'tags': tags})
@@ -234,6 +248,11 @@ def gen_c03(rnd, n, thorough=False):
                     S = layout[0][0]
                     pts += [(t0 - t0 % S + rnd.randint(0, S - 1), value(rnd, nan_ok)) for _j in range(rnd.randint(1, 3))]
                     pts += [(t0, value(rnd, nan_ok))]
+                if pts and rnd.chance(0.12):
+                    # an unfilled entry (timestamp 0, the zero value of a point) anywhere in the batch: it is
+                    # just a very old point
+                    pts.insert(rnd.randrange(len(pts) + 1), (0, rnd.pick([0, value(rnd, nan_ok)])))
+                    tags['ops']['zero_time'] = tags['ops'].get('zero_time', 0) + 1
                 if rnd.chance(0.7):
                     rnd.shuffle(pts)
                 if kind == 'monotone_dups' and pts:
@@ -324,6 +343,11 @@ def gen_c04(rnd, n, thorough=False):
                 cnt = N if fill == 'full' else rnd.randint(1, N)
                 pts = [(now - j * S, small_value(rnd)) for j in range(cnt)]
                 lines.append(_many('f', a, now, pts))
+        if rnd.chance(0.25):
+            # a stale max-retention word in the header (it is not part of the layout): the shape of a fetch
+            # is decided by the archive list alone
+            lines += ["sync f", "setmaxret f %d" % rnd.pick([1, 0, rets[0] - 1, rets[0], rets[0] + 1, rnd.randint(1, rets[-1]), rets[-1] * 2, 2 ** 31 - 1, 2 ** 32 - 1]), "open f"]
+            tags['stale_maxret'] = 1
         for _ in range(rnd.randint(3, 10)):
             if rnd.chance(0.3):
                 now = advance(rnd, now, layout)
@@ -452,6 +476,13 @@ def gen_c05(rnd, n, thorough=False):
             elif r < 0.8:
                 lines.append("sync f")
                 op = 'sync'
+            elif r < 0.84:
+                # Create again on the same path with the same header and an open flag without O_EXCL: it
+                # keeps what was synced (the size does not change); abandoned before its Sync it changed nothing
+                lines += ["sync f", _create('f', layout, m, xff).replace('create ', 'createover ', 1)]
+                if rnd.chance(0.5):
+                    lines += ["disk f", "drop f", "disk f", "open f"]
+                op = 'createover'
             elif r < 0.9:
                 lines += ["drop f", "disk f", "open f"]
                 op = 'abandon'
@@ -490,4 +521,45 @@ def gen_c05(rnd, n, thorough=False):
     return cases
 
 
-GENS = {'C01': gen_c01, 'C02': gen_c02, 'C03': gen_c03, 'C04': gen_c04, 'C05': gen_c05}
+def clockify(lines):
+    """The same history through the calls that read the clock: the library's clock (whispertool.Now) is
+    set to each operation's instant; best-archive calls become Update / UpdateMany / Fetch, calls naming
+    an archive get a now argument of 0."""
+    out, cur = [], None
+    for l in lines:
+        tk = l.split()
+        if tk[0] in ('upd', 'fetch') and len(tk) == 6:
+            now = int(tk[5])
+        elif tk[0] == 'many':
+            now = int(tk[3])
+        else:
+            out.append(l)
+            continue
+        if not (0 < now < 2 ** 32) or not tk[1] == 'f':
+            out.append(l)
+            continue
+        if now != cur:
+            out.append("setclock %d" % now)
+            cur = now
+        if tk[0] == 'upd':
+            out.append("wupd f %s %s" % (tk[3], tk[4]) if tk[2] == '-1' else "upd f %s %s %s 0" % (tk[2], tk[3], tk[4]))
+        elif tk[0] == 'fetch':
+            out.append("wfetch f %s %s" % (tk[3], tk[4]) if tk[2] == '-1' else "fetch f %s %s %s 0" % (tk[2], tk[3], tk[4]))
+        else:
+            out.append("wmany f %s" % " ".join(tk[4:]) if tk[2] == '-1' else "many f %s 0 %s" % (tk[2], " ".join(tk[4:])))
+    return out
+
+
+def with_clock_variants(gen, share=0.25):
+    def g(rnd, n, thorough=False):
+        cases = gen(rnd, n, thorough)
+        for cs in cases:
+            if cs['lines'] and cs['lines'][0].startswith('create f ') and len(cs['lines']) < 400 and rnd.chance(share):
+                cs['lines'] = clockify(cs['lines'])
+                cs['tags']['clock'] = 'library_clock'
+        return cases
+    return g
+
+
+GENS = {'C01': with_clock_variants(gen_c01), 'C02': with_clock_variants(gen_c02, 0.15), 'C03': with_clock_variants(gen_c03), 'C04': with_clock_variants(gen_c04),
+        'C05': gen_c05}
